@@ -20,7 +20,7 @@ Definition find_lt (sorted_list : list T) (x : T) : res :=
     (Ret None).
 
 Definition find_le (sorted_list : list T) (x : T) : res :=
-  let i := (bisect_left ltb sorted_list x) in
+  let i := (bisect_right ltb sorted_list x) in
   econd (ebind (Some i) (fun u => Some (negb (Z.eqb u 0))))
     (Ret (Some (i - (1)%Z)%Z))
     (Ret None).
